@@ -20,6 +20,33 @@ def run(ctx):
     led.explanation = EXPLANATION
     led.assumptions = ["self.vector is stored raw (C04.raw)", "v4 value names are compared leniently (swaps / non-injective names only)"]
     n = 0
+    from fractions import Fraction
+
+    from .. import rules_sev as RS
+    from ..rules_parse import RelabelLedger
+
     for v in (2, 3, 4):
         n += RJ.check_c11(ctx, led, v)
+        # "every score or severity field present equals the corresponding defined score and its
+        # rating": slot pairing and float(score) (the rules of C09.agree.json, discharged here), and
+        # each *Severity key tabulated over the score grid against the official scale
+        n_js, tables = RS.check_json_scores(ctx, RelabelLedger(led, "C11.scores", strip="C09.agree.json"), v)
+        n += n_js
+        spec = ctx.vspec(v)
+        for key, table in sorted(tables.items()):
+            bad = []
+            for q, got in sorted(table.items()):
+                lab = RS.official_label(spec, q)
+                want = None if lab is None else lab.upper().replace(" ", "_")
+                # the spelling of the rating token (LOW / Low) is the schema's matter (C10)
+                if (got.upper().replace(" ", "_") if isinstance(got, str) else got) != want:
+                    bad.append((float(q), got, want))
+            n += 1
+            led.check(
+                not bad,
+                "C11.severity",
+                "CVSS%d.as_json[%s] scale" % (v, key),
+                "cvss/",
+                "%s differs from the rating of its score on %d grid point(s), e.g. score %s -> %r, the scale says %r" % ((key, len(bad)) + (bad[0] if bad else (None, None, None))),
+            )
     led.require_min("C11", n, 100, "faithfulness obligations")
